@@ -445,4 +445,25 @@ def c09(c):
                     "the recorded conversations are checked by the same monitor in TLC; distinct = conversations")
 
 
-CHECKS = {"C17": c17, "C15": c15, "C16": c16, "C18": c18, "C20": c20, "C06": c06, "C07": c07, "C19": c19, "C08": c08, "C09": c09, "C10": c10, "C11": c11, "C12": c12, "C13": c13, "C14": c14, "C01": c01, "C02": c02, "C03": c03, "C04": c04, "C05": c05}
+# --------------------------------------------------------------------------- beyond the listed properties
+def extra(c):
+    """Specification growth beyond the 20 properties: Display formats (trace validation), termination of controller calls
+    under weak fairness (liveness, TLC), and the TLAPS proof about the page layout."""
+    files, n, _ = vlib.record("EXTRA", c.tier, c.seed, 2, name="DISPLAY")
+    c.validate("Trace_Display", "Trace_Display.cfg", files, ["record", "DISPLAY"], procs=2, timeout=900)
+    r = vlib.run_mc("EXTRA", "MC_Live", "MC_Live_quick.cfg", "mc", workers=4, timeout=900, coverage=False)
+    log("[M] MC_Live (every started controller call terminates, WF on exchanges): %d distinct states, ok=%s" % (r["distinct"], r["ok"]))
+    if not r["ok"]:
+        log(r["tail"][-2000:])
+        raise vlib.ToolError("liveness check failed on the model")
+    c.states += r["distinct"]
+    c.transitions += r["states"]
+    n, ok, secs = vlib.run_tlapm("PixelIndex")
+    log("[P] TLAPS PixelIndex: %d obligations, all proved=%s, %.1fs" % (n, ok, secs))
+    if not ok:
+        raise vlib.ToolError("TLAPS proof does not check")
+    c.details["tlaps"] = {"obligations": n, "discharged": n}
+    return c.finish("model_checking", "extras: Display formats of frames/messages/pages validated against Display.tla; liveness of controller calls; TLAPS layout proof")
+
+
+CHECKS = {"EXTRA": extra, "C17": c17, "C15": c15, "C16": c16, "C18": c18, "C20": c20, "C06": c06, "C07": c07, "C19": c19, "C08": c08, "C09": c09, "C10": c10, "C11": c11, "C12": c12, "C13": c13, "C14": c14, "C01": c01, "C02": c02, "C03": c03, "C04": c04, "C05": c05}
